@@ -152,22 +152,25 @@ example : (((recomputeOne exEnv 5 2).run.run exS).2.nodeD 2).value = some (.int 
 
 /-! ## 4. map_with_old -/
 
-/-- `map_with_old g i`: the machine is run once on (closure state, old value, input value); its
-second component becomes the node's value and its first component the new closure state. -/
+/-- `map_with_old g i` with a user-written machine (`g < opBase`; ids from `opBase` up are the closures of
+the incremental-map operators, which log one event per inner call and are not treated here): the
+machine is run once on (closure state, old value, input value); its second component becomes the
+node's value and its first component the new closure state. -/
 theorem step_mapWithOld_value (env : Env) (fuel n : Nat) (s s' : State) (nd : Node) (g i : Nat)
     (x σ' new : Val) (did : Bool) (r : Option Nat)
     (hn : s.nodes[n]? = some nd) (hv : nd.valid = true) (hk : nd.kind = .mapWithOld g i)
-    (hx : s.value env i = some x) (hp : s.panicCountdown = none)
+    (hg : g < opBase) (hx : s.value env i = some x) (hp : s.panicCountdown = none)
     (hw : env.withOld g nd.oldState nd.value x = (σ', new, did))
     (h : (recomputeOne env fuel n).run.run s = (.ok r, s')) :
     (s'.nodeD n).value = some new ∧ (s'.nodeD n).oldState = σ' :=
-  have post := recomputeOne_mapWithOld_post env fuel n s s' nd g i x σ' new did r hn hv hk hx hp hw h
+  have post := recomputeOne_mapWithOld_post env fuel n s s' nd g i x σ' new did r hn hv hk hg hx hp hw h
   ⟨post.value, post.oldState⟩
 
-example : exS.nodes[4]? = some (exS.nodeD 4) ∧ (exS.nodeD 4).kind = .mapWithOld 0 0 ∧
+example : exS.nodes[4]? = some (exS.nodeD 4) ∧ (exS.nodeD 4).kind = .mapWithOld 0 0 ∧ 0 < opBase ∧
     exS.value exEnv 0 = some (.int 1) ∧
     exEnv.withOld 0 (exS.nodeD 4).oldState (exS.nodeD 4).value (.int 1) = (.int 1, .int 2, true) ∧
-    ∃ r s', (recomputeOne exEnv 5 4).run.run exS = (.ok r, s') := ⟨rfl, rfl, rfl, rfl, (returned_iff _).1 (by decide +kernel)⟩
+    ∃ r s', (recomputeOne exEnv 5 4).run.run exS = (.ok r, s') :=
+  ⟨rfl, rfl, by decide, rfl, rfl, (returned_iff _).1 (by decide +kernel)⟩
 example : (((recomputeOne exEnv 5 4).run.run exS).2.nodeD 4).oldState = .int 1 := by decide +kernel
 
 /-! ## 5. bind_main -/
